@@ -14,6 +14,7 @@ From BV Require Import Model.SpecCodec Model.CodecsRegistry Proofs.CodecsRegistr
 From BV Require Import Model.CodecsXfields Proofs.CodecsXfields Gen.C18XRegistry Gen.C18AvrcpRegistry.
 From BV Require Import Model.CodecsShapes Proofs.CodecsShapes Gen.C18Shapes.
 From BV Require Import Model.CodecsA2dp Proofs.CodecsA2dp.
+From BV Require Import Model.CodecsFieldSrc Proofs.CodecsFieldSrc Gen.C18FieldSrc.
 Import ListNotations.
 Open Scope Z_scope.
 
@@ -437,6 +438,24 @@ Theorem C18_xregistry_fields_roundtrip : forall c, In c C18XRegistry.xclasses ->
 Proof. exact gen_xfields_roundtrip. Qed.
 Print Assumptions C18_xregistry_fields_roundtrip.
 
+(* ATT Read Multiple Variable Response: (Length, Value) tuples carry their own Length; the last value
+   may be shorter than its Length (truncated to fit ATT_MTU).  Both directions, all tuple lists. *)
+Theorem C18_att_length_value_tuples_value_roundtrip : forall vs, lv_inr vs = true ->
+  exists b, lv_ser vs = Some b /\ lv_parse (S (length b)) b = Some vs.
+Proof. exact lv_value_roundtrip. Qed.
+Print Assumptions C18_att_length_value_tuples_value_roundtrip.
+
+Theorem C18_att_length_value_tuples_bytes_roundtrip : forall b vs,
+  bytes_ok b = true -> lv_parse (S (length b)) b = Some vs -> lv_ser vs = Some b /\ lv_inr vs = true.
+Proof. exact lv_bytes_roundtrip. Qed.
+Print Assumptions C18_att_length_value_tuples_bytes_roundtrip.
+
+(* a serializer that derives Length from the value does not satisfy the statement *)
+Theorem C18_att_length_value_tuples_derived_length_refuted :
+  exists vs, lv_inr vs = true /\ lv_ser_derived vs <> lv_ser vs.
+Proof. exact lv_derived_refuted. Qed.
+Print Assumptions C18_att_length_value_tuples_derived_length_refuted.
+
 (* the codec itself, every field list: self-delimiting lists with any trailing bytes, and any
    well-formed list ('*'-like fields last) *)
 Theorem C18_xfields_roundtrip_tight : forall fs prev0 vs,
@@ -450,6 +469,14 @@ Theorem C18_xfields_roundtrip : forall fs prev0 vs,
   exists b n, xserialize fs vs = Some b /\ xparse fs prev0 b = Some (vs, n) /\ (n <= length b)%nat.
 Proof. exact xfields_roundtrip. Qed.
 Print Assumptions C18_xfields_roundtrip.
+
+(* Per-run obligation: the source text of every custom field parser / serializer (lambdas and the
+   named functions they call) of the six PDU registries is the text the field-codec models were
+   written from (Model/CodecsFieldSrc.v).  A lambda replaced by a method, or a method body changed,
+   breaks this whether or not a generated input notices. *)
+Theorem C18_field_codecs_match_source : field_codec_sources_src = field_codec_sources.
+Proof. exact field_codec_sources_checked. Qed.
+Print Assumptions C18_field_codecs_match_source.
 
 (* ------------------------------------------------------------------ AVRCP PDUs *)
 (* Gen/C18AvrcpRegistry.v (regenerated every run): the classes of avrcp.Command / Response /
@@ -599,6 +626,12 @@ Example C18_ex_xregistry :
   xin_range [XPsm; XA (UInt 2)] 0 [VInt 4097; VInt 64] = true /\
   xserialize [XPsm; XA (UInt 2)] [VInt 4097; VInt 64] = Some [1; 16; 64; 0] /\
   xin_range [XSdpElem; XA (UIntBE 2); XA Rest] 0 [VBytes [53; 3; 25; 17; 1]; VInt 10; VBytes [0]] = true.
+Proof. vm_compute. repeat split; reflexivity. Qed.
+
+Example C18_ex_lv_truncated_last :
+  lv_inr [VList [VInt 2; VBytes [1; 2]]; VList [VInt 30; VBytes [9; 9; 9]]] = true /\
+  lv_ser [VList [VInt 2; VBytes [1; 2]]; VList [VInt 30; VBytes [9; 9; 9]]] = Some [2; 0; 1; 2; 30; 0; 9; 9; 9] /\
+  lv_parse 10 [2; 0; 1; 2; 30; 0; 9; 9; 9] = Some [VList [VInt 2; VBytes [1; 2]]; VList [VInt 30; VBytes [9; 9; 9]]].
 Proof. vm_compute. repeat split; reflexivity. Qed.
 
 Example C18_ex_avrcp :
